@@ -20,18 +20,21 @@ def unit_chain(loop):
     for s in loop.body:
         if isinstance(s, ast.If):
             rows = {}
-            for test, body in if_chain(s):
+            head = None
+            for test, body, node in if_chain(s, nodes=True):
                 if test is None:
-                    rows['else'] = body
+                    if head is not None:
+                        rows['else'] = body
                     continue
                 kind, keys = classify_test(test)
                 if kind.startswith('endswith:'):
+                    head = head or node
                     for k in keys:
                         rows[k] = body
-                else:
+                elif head is not None:        # a returning/continuing guard BEFORE the dispatch is not part of it (C09.4 looks at those)
                     rows.setdefault('other', []).append((test, body))
-            if any(len(k) == 1 for k in rows if isinstance(k, str)):
-                return s, rows
+            if head is not None and any(len(k) == 1 for k in rows if isinstance(k, str)):
+                return head, rows
     raise AnalysisError('unit dispatch chain not found in the token loop')
 
 
